@@ -325,7 +325,11 @@ def judge_call(case, rec, acc, z, peer, mask):
                 if bool(f['rsv1']) != want_rsv1:
                     probs.append('rsv1=%d but compression %s' % (f['rsv1'], 'requested' if want_rsv1 else 'not requested/negotiated'))
                 if mask is not None and f['key'] != mask:
-                    probs.append('mask key on the wire is not the generated key')
+                    # the substitution point lomond.frame.make_masking_key is not effective (name moved?):
+                    # nothing can be said about the forced key - counted, and the REQUIRED counter
+                    # mask_key_sweep_calls turns a run without any effective substitution into INCONCLUSIVE
+                    acc.count2('oracle', 'mask_substitution_ineffective')
+                    mask = None
                 if probs:
                     key = 'invalid-client-frame:' + probs[0].split(' ')[0] + ':' + name
                     detail['problems'] = probs
